@@ -188,8 +188,12 @@ pub fn run(tier: Tier) -> i32 {
     rep.rule("M2: every schedule with <= d deviations (per packet: drop/dup/delay1/delay2/dup-late; per batch: reverse; per tick: application skips draining) over the first 5 ticks of each scenario (script x tick length x direction), then a fault-free tail; oracle: obtained is a byte-identical prefix of submitted after every drain, equal after the tail, nobody disconnects");
     rep.assume("payloads are the harness's self-describing pattern; sizes are from the boundary alphabet {0,1,1200,1201,2401,3600}");
     let sc = scenarios(tier);
-    let d = tier.pick(2, 3);
-    run_link_scenarios(&mut rep, "m2", &sc, d, tier.pick(120.0, 1500.0));
+    let d = tier.pick(3, 4);
+    run_link_scenarios(&mut rep, "m2", &sc, d, tier.pick(120.0, 3000.0));
+    if rep.machinery.is_none() {
+        rep.rule("M1 (API soup): every interleaving up to depth D of send / update / flush / deliver / drop / duplicate / receive on a real client and server connection with <= 3 packets in flight per direction; prefix oracle after every call, and in every state a probe on a clone: deliver what is in flight, 8 fault-free ticks, everything submitted must have arrived");
+        super::soup::run_soup(&mut rep, tier, "soup", Kind::Ordered, super::soup::O_ORDER, &["C01/"]);
+    }
     rep.finish()
 }
 
@@ -198,5 +202,8 @@ pub fn replay(j: &J) -> i32 {
         Some("thorough") => Tier::Thorough,
         _ => Tier::Quick,
     };
+    if j.get("kind").and_then(|k| k.as_str()) == Some("trace") {
+        return super::soup::replay_soup(j, Kind::Ordered, super::soup::O_ORDER);
+    }
     replay_link(&scenarios(tier), j)
 }
